@@ -59,9 +59,12 @@ def c21 (stream : String) (fs : List String) : String :=
     let ks := ((keys.splitOn ";").filter (· ≠ "")).map parseKey
     let idx := List.range ks.length
     ",".intercalate ((sortDiagnostics (ks.zip idx)).map (fun p => toString p.2))
-  | "fragcycle", [limit, doc] =>
-    let d := parseDoc doc
-    "".intercalate (d.map fun (n, body) => outcomeStr (fragmentCycle d (limit.toNat?.getD 0) n body).1)
+  | "fragcycle", [limit, dlimit, doc] =>
+    match limit.toNat?, dlimit.toNat? with
+    | some l, some dl =>
+      let d := parseDoc doc
+      "".intercalate (d.map fun (n, body) => outcomeStr (fragmentCycle d l dl n body).1)
+    | _, _ => "bad-case"
   | _, _ => "bad-case"
 
 end Driver
